@@ -1,10 +1,11 @@
 (** C07 - network contraction is independent of strategy and equals the defining sum.
-    Property theorems only (proofs: Qib.TN.TNSum, TNEinsum, TNEinsumSpec, TNTreeCheck).
+    Property theorems only (proofs: Qib.TN.TNSum, TNEinsum, TNEinsumSpec, TNTreeCheck; tree builder:
+    TNBuilderLoops, TNBuilder, TNBuilderRoot, TNRootPermute; permute_axes: TNPermute).
     The model (Qib.TN.TNValue, TNTree) is a hand port of as_einsum / contract_einsum /
     to_full_tensor / _build_contraction_tree / contract_tree / permute_axes /
     perform_tree_contraction, with numpy.einsum modelled by its defining sum [einsum_sem];
     it is tied to /repo by the exact correspondence run of checks/C07.py on every run. *)
-From Qib Require Import TN.TNTreeCheck TN.TNConsistentConv TN.TNGenBase Base.Inst.
+From Qib Require Import TN.TNTreeCheck TN.TNConsistentConv TN.TNGenBase TN.TNRootPermute Base.Inst.
 From Run Require Import GenTN.
 
 (** (a) single-shot contraction.  For every network satisfying the incidence invariant, every
@@ -70,14 +71,24 @@ Proof.
 Qed.
 Print Assumptions C07_any_injective_labelling.
 
-(** (b) tree contraction: a VERIFIED CHECKER.  For every network, every tree (with its index
-    lists idxL/idxR/idxout, openaxes, trackaxes per node) and every axes map: if the decidable
-    check [check_root] accepts, the nested binary einsums of the tree, expanded by the axes map,
-    have the logical shape of the network and equal the defining sum - hence also the
-    single-shot result, whatever the scaffold.  The check is evaluated inside Coq on every tree
-    the implementation builds in the correspondence run (translation validation; each instance
-    is a kernel-checked computation).  Not proved: that the builder always produces a tree the
-    checker accepts (forall scaffold) - the tree path of C07 is therefore PARTIAL.
+(** (b) tree contraction.  FULL (C07_builder_tree_is_defining_sum below): for every network with the
+    incidence invariant and EVERY admissible scaffold - any binary bracketing of exactly the real
+    tensors - what contract_tree returns expands to the defining sum with the logical shape; and
+    it does return (C07_tree_contraction_answers) unless an open axis sits on a bond without a
+    real tensor (the code's explicit refusal 'cannot track open axis') or the scaffold is a single
+    tensor with two legs on one bond (self-trace assertion / two legs on one open bond: the
+    recorded known findings).  Hyper-bonds, multi-edges with partial contraction, shared open
+    bonds are all covered.  Proof: TNBuilder establishes an invariant of subtrees (BI: the node
+    passes the verified checker, open legs/positions/closed bonds bookkeeping) for leaves and
+    through the three loops of _build_contraction_tree; TNBuilderRoot shows that the root with
+    contract_tree's axes map passes check_root; TNPermute moves the result through the root
+    permutation.
+    First the VERIFIED CHECKER it rests on (and which is still executed in Coq on every tree the
+    implementation builds in the correspondence run - translation validation of the PORT): for
+    every network, every tree (with its index lists idxL/idxR/idxout, openaxes, trackaxes per
+    node) and every axes map: if the decidable check [check_root] accepts, the nested binary
+    einsums of the tree, expanded by the axes map, have the logical shape of the network and
+    equal the defining sum.
     [tree_eval] is perform_tree_contraction on the tensor dictionary contract_tree hands over: the
     entry of a leaf is the stored tensor laid out as the leaf's idxout says - range(ndim) for every
     leaf as built; a single-leaf ROOT is permuted by contract_tree and its entry transposed by the
@@ -92,44 +103,163 @@ Theorem C07_checked_tree_is_defining_sum :
 Proof. intros K L n data t amap v W C E. exact (check_root_sound n data W t amap v C E). Qed.
 Print Assumptions C07_checked_tree_is_defining_sum.
 
-Theorem C07_contract_tree_checked_partial :
+Theorem C07_contract_tree_checked :
   forall (K : Scalar) (L : ScalarLaws K) (n : net) (data : Z -> list nat -> K) s r,
     WF n -> contract_tree n data s = Some r -> check_root n (r_tree r) (r_amap r) = true ->
     exists shp, shape n = Some shp /\ fst (to_full_tensor (r_val r) (r_amap r)) = shp /\
       forall x, in_range shp x -> snd (to_full_tensor (r_val r) (r_amap r)) x = defining_sum n data x.
 Proof. intros K L n data s r W H C. exact (contract_tree_checked n data s r W H C). Qed.
-Print Assumptions C07_contract_tree_checked_partial.
-(* Full statement (L2, not proved):
-     forall n s r, WF n -> contract_tree n data s = Some r -> check_root n (r_tree r) (r_amap r) = true
-   for every scaffold s that is a binary bracketing of the real tensors. *)
+Print Assumptions C07_contract_tree_checked.
 
-(* (c) "Re-ordering a node's axes in a contraction tree does not change the result" - NOT proved as a
-   universal theorem.  Full statement: for every tree t with distinct output labels per node and
-   consistent label dimensions, every path to an inner node and every permutation p of that node's axes,
-     permute_axes t path p = Some t' ->
-     tree_eval n data t' = tree_eval n data t              (path <> [], pointwise)
-     tree_eval n data t' = transpose p (tree_eval n data t) (path = [], the root).
-   What IS established: the port of permute_axes is compared exactly with the implementation (CPerm),
-   every permuted tree of the run - inner node, root or leaf (for a leaf the dictionary entry is
-   transposed accordingly, as tests/test_tensor_network.py does) - is re-submitted to the verified
-   checker (CChk ... true, hence C07_checked_tree_is_defining_sum applies to it: same dense tensor),
-   and the implementation oracle contracts the permuted tree (also repeatedly with one dictionary,
-   checks/C07.py probe_history). *)
+(** THE BUILDER THEOREM.  [scaffold_ok n s]: the leaves of s are distinct and are exactly the real
+    (non-virtual) tensors of n.  No hypothesis on the topology, no run-time check. *)
+Theorem C07_builder_tree_is_defining_sum :
+  forall (K : Scalar) (L : ScalarLaws K) (n : net) (data : Z -> list nat -> K) s r,
+    WF n -> scaffold_ok n s -> contract_tree n data s = Some r ->
+    exists shp, shape n = Some shp /\ fst (to_full_tensor (r_val r) (r_amap r)) = shp /\
+      forall x, in_range shp x -> snd (to_full_tensor (r_val r) (r_amap r)) x = defining_sum n data x.
+Proof. intros K L n data s r W S H. exact (contract_tree_correct n data W s r S H). Qed.
+Print Assumptions C07_builder_tree_is_defining_sum.
 
-(** strategy independence, as far as it is proved: a checked tree and the single shot agree *)
-Theorem C07_tree_equals_einsum_when_checked :
+(** the builder itself: it never raises on such a scaffold, and every tree it builds passes the
+    verified tree checker (index lists, openaxes, trackaxes of every node) *)
+Theorem C07_builder_tree_passes_checker :
+  forall (n : net) s, WF n -> scaffold_ok n s ->
+    exists tr, build_contraction_tree n s = Some tr /\ check_tree n tr = true /\
+               NoDup (tr_out tr) /\ leaves_of tr = sleaves s.
+Proof.
+  intros n s W [ND Sc]. destruct (build_tree_ok n W s (zmax0 (dkeys (tensors n)) + 1) ND (fun x H => proj1 (Sc x) H)) as [t [E [B Lt]]].
+  exists t. split; [exact E|]. split; [exact (bi_chk _ _ B)|]. split; [exact (bi_out _ _ B) | exact Lt].
+Qed.
+Print Assumptions C07_builder_tree_passes_checker.
+
+(** ... and with contract_tree's axes map the root passes the root check (before the root permutation) *)
+Theorem C07_builder_root_passes_checker :
+  forall (n : net) s tr vt amap si, WF n -> scaffold_ok n s ->
+    build_contraction_tree n s = Some tr -> dget VT (tensors n) = Some vt ->
+    omap (track_open n tr) (t_bids vt) = Some amap ->
+    sort_indices_loop amap (repeat None (length (tr_out tr))) O = (si, length (tr_out tr)) ->
+    check_root n tr amap = true /\ is_perm (map unwrap si).
+Proof.
+  intros n s tr vt amap si W S Eb Ev Eo Es.
+  destruct (built_root_checked n W s tr vt amap si S Eb Ev Eo Es) as [_ [C [P _]]]. auto.
+Qed.
+Print Assumptions C07_builder_root_passes_checker.
+
+(** what contract_tree RETURNS (after the root permutation, with the re-indexed axes map) passes
+    check_root: the statement that was open after round 1 ("forall scaffold, the builder's tree passes
+    the checker").  Hence the translation validation of the run can only fail if the PORT disagrees
+    with the implementation, never because of the scaffold. *)
+Theorem C07_contract_tree_result_passes_checker :
+  forall (K : Scalar) (L : ScalarLaws K) (n : net) (data : Z -> list nat -> K) s r,
+    WF n -> scaffold_ok n s -> contract_tree n data s = Some r -> check_root n (r_tree r) (r_amap r) = true.
+Proof. intros K L n data s r W S H. exact (contract_tree_always_checked n data s r W S H). Qed.
+Print Assumptions C07_contract_tree_result_passes_checker.
+
+(** the checker is stable under permute_axes at the root with the axes map moved accordingly *)
+Theorem C07_checker_stable_under_root_permutation :
+  forall (n : net) t amap p t',
+    check_root n t amap = true -> is_perm p -> permute_axes t [] p = Some t' ->
+    check_root n t' (pick O (inv_perm p) amap) = true.
+Proof.
+  intros n t amap p t' C P H. assert (H' : permute_self t p = Some t') by (destruct t; exact H).
+  exact (check_root_permute n t amap p t' C P H').
+Qed.
+Print Assumptions C07_checker_stable_under_root_permutation.
+
+(** totality: contract_tree answers.  [open_ok]: every open axis sits on a bond with a real tensor
+    (otherwise the code refuses: RuntimeError 'cannot track open axis');  [root_ok]: a single-tensor
+    scaffold has no two legs on one bond (the known findings: assertion on a self-trace,
+    RuntimeError for two legs on one open bond). *)
+Theorem C07_tree_contraction_answers :
+  forall (K : Scalar) (L : ScalarLaws K) (n : net) (data : Z -> list nat -> K) s,
+    WF n -> scaffold_ok n s -> open_ok n -> root_ok n s -> exists r, contract_tree n data s = Some r.
+Proof. intros K L n data s W S O R. exact (contract_tree_total n data W s S O R). Qed.
+Print Assumptions C07_tree_contraction_answers.
+
+(** (c) "Re-ordering a node's axes in a contraction tree does not change the result".  For every tree
+    numpy.einsum accepts ([tree_ok]: distinct output labels per node, operand shapes consistent with
+    the index lists, a leaf's idxout a permutation of its legs), EVERY path to a node and EVERY
+    permutation p of that node's axes: permute_axes (node: idxout and trackaxes; parent: idxL / idxR)
+    leaves the value of every strict ancestor - in particular the root - unchanged, pointwise and in
+    shape; when the node is the root the value is transposed by p. *)
+Theorem C07_permute_axes_keeps_value :
+  forall (K : Scalar) (L : ScalarLaws K) (n : net) (data : Z -> list nat -> K) t path p t' v,
+    tree_ok n data t -> is_perm p -> permute_axes t path p = Some t' -> tree_eval n data t = Some v ->
+    exists v', tree_eval n data t' = Some v' /\
+      match path with [] => tv_eq v' (tv_transpose v p) | _ => tv_eq v' v end.
+Proof. intros K L n data t path p t' v T P H E. exact (permute_axes_value n data t path p t' v T P H E). Qed.
+Print Assumptions C07_permute_axes_keeps_value.
+
+(** ... the tree stays well-formed (permutations can be iterated) ... *)
+Theorem C07_permute_axes_keeps_tree_ok :
+  forall (K : Scalar) (L : ScalarLaws K) (n : net) (data : Z -> list nat -> K) t path p t',
+    tree_ok n data t -> is_perm p -> permute_axes t path p = Some t' -> tree_ok n data t'.
+Proof. intros K L n data t path p t' T P H. exact (permute_axes_tree_ok n data t path p t' T P H). Qed.
+Print Assumptions C07_permute_axes_keeps_tree_ok.
+
+(** ... at the root the axes map is permuted accordingly and the EXPANDED tensor is unchanged
+    (contract_tree: axes_map = [sort_indices[k] for k in axes_map], i.e. p = argsort^-1) ... *)
+Theorem C07_permute_root_keeps_expansion :
+  forall (K : Scalar) (L : ScalarLaws K) (n : net) (data : Z -> list nat -> K) t p t' v amap,
+    tree_ok n data t -> is_perm p -> permute_axes t [] p = Some t' -> tree_eval n data t = Some v ->
+    (forall a, In a amap -> (a < length p)%nat) ->
+    exists v', tree_eval n data t' = Some v' /\
+      tv_eq (to_full_tensor v' (pick O (inv_perm p) amap)) (to_full_tensor v amap).
+Proof.
+  intros K L n data t p t' v amap T P H E Ha.
+  destruct (permute_axes_value n data t [] p t' v T P H E) as [v' [E' Q]]. exists v'. split; [exact E'|].
+  apply (to_full_tensor_transpose v v' p amap P); [|exact Ha | exact Q].
+  rewrite permute_axes_nil in H. rewrite (permute_self_len t p t' H). symmetry. apply (tree_eval_len n data t v E).
+Qed.
+Print Assumptions C07_permute_root_keeps_expansion.
+
+(** ... and it applies to every tree the builder builds and to every tree the checker accepts *)
+Theorem C07_built_trees_are_tree_ok :
+  forall (K : Scalar) (L : ScalarLaws K) (n : net) (data : Z -> list nat -> K) s tr,
+    WF n -> scaffold_ok n s -> build_contraction_tree n s = Some tr -> tree_ok n data tr.
+Proof.
+  intros K L n data s tr W [ND Sc] E.
+  destruct (build_tree_ok n W s (zmax0 (dkeys (tensors n)) + 1) ND (fun x H => proj1 (Sc x) H)) as [t [E' [B _]]].
+  unfold build_contraction_tree in E. assert (t = tr) by congruence. subst t.
+  exact (check_tree_tree_ok n data W tr (bi_chk _ _ B) (bi_out _ _ B)).
+Qed.
+Print Assumptions C07_built_trees_are_tree_ok.
+Theorem C07_checked_trees_are_tree_ok :
+  forall (K : Scalar) (L : ScalarLaws K) (n : net) (data : Z -> list nat -> K) t amap,
+    WF n -> check_root n t amap = true -> tree_ok n data t.
+Proof. intros K L n data t amap W C. exact (check_root_tree_ok n data W t amap C). Qed.
+Print Assumptions C07_checked_trees_are_tree_ok.
+
+(** strategy independence: tree contraction along any admissible scaffold and the single shot agree *)
+Theorem C07_tree_equals_einsum :
   forall (K : Scalar) (L : ScalarLaws K) (n : net) (data : Z -> list nat -> K) s r v am x shp,
-    WF n -> contract_tree n data s = Some r -> check_root n (r_tree r) (r_amap r) = true ->
+    WF n -> scaffold_ok n s -> contract_tree n data s = Some r ->
     contract_einsum n data = Some (v, am) -> shape n = Some shp -> in_range shp x ->
     snd (to_full_tensor (r_val r) (r_amap r)) x = snd (to_full_tensor v am) x.
 Proof.
-  intros K L n data s r v am x shp W HT HC HE HS Hx.
-  destruct (contract_tree_checked n data s r W HT HC) as [shp1 [S1 [_ V1]]].
+  intros K L n data s r v am x shp W HS HT HE Hshp Hx.
+  destruct (contract_tree_correct n data W s r HS HT) as [shp1 [S1 [_ V1]]].
   destruct (contract_einsum_correct n data v am W HE) as [shp2 [S2 [_ V2]]].
   assert (shp1 = shp) by congruence. assert (shp2 = shp) by congruence. subst.
   rewrite V1, V2 by assumption. reflexivity.
 Qed.
-Print Assumptions C07_tree_equals_einsum_when_checked.
+Print Assumptions C07_tree_equals_einsum.
+
+(** two scaffolds: any two contraction orders give the same dense tensor *)
+Theorem C07_any_two_scaffolds_agree :
+  forall (K : Scalar) (L : ScalarLaws K) (n : net) (data : Z -> list nat -> K) s1 s2 r1 r2 x shp,
+    WF n -> scaffold_ok n s1 -> scaffold_ok n s2 ->
+    contract_tree n data s1 = Some r1 -> contract_tree n data s2 = Some r2 -> shape n = Some shp -> in_range shp x ->
+    snd (to_full_tensor (r_val r1) (r_amap r1)) x = snd (to_full_tensor (r_val r2) (r_amap r2)) x.
+Proof.
+  intros K L n data s1 s2 r1 r2 x shp W H1 H2 T1 T2 Hshp Hx.
+  destruct (contract_tree_correct n data W s1 r1 H1 T1) as [shp1 [S1 [_ V1]]].
+  destruct (contract_tree_correct n data W s2 r2 H2 T2) as [shp2 [S2 [_ V2]]].
+  assert (shp1 = shp) by congruence. assert (shp2 = shp) by congruence. subst.
+  rewrite V1, V2 by assumption. reflexivity.
+Qed.
+Print Assumptions C07_any_two_scaffolds_agree.
 
 
 (* ================================================================== the source, regenerated *)
@@ -200,6 +330,20 @@ Example C07_example_tree :
                           (SNode (SLeaf 5) (SLeaf 2)) = Some r /\
             check_root ex_net2 (r_tree r) (r_amap r) = true.
 Proof. split; [vm_compute; reflexivity|]. eexists. split; [vm_compute; reflexivity | vm_compute; reflexivity]. Qed.
+
+(** the hypotheses of the builder theorem / of totality hold for it (hyper-bond 4 with five legs, two of
+    them open, multi-edge 2-2 on bond 7 = a self-trace inside a two-tensor scaffold) *)
+Example C07_example_tree_admissible :
+  scaffold_ok ex_net2 (SNode (SLeaf 5) (SLeaf 2)) /\ open_ok ex_net2 /\ root_ok ex_net2 (SNode (SLeaf 5) (SLeaf 2)).
+Proof.
+  split; [|split; [|exact I]].
+  - split.
+    + cbn. constructor; [intros [H|[]]; discriminate|]. constructor; [intros []|constructor].
+    + intros k. cbn. unfold VT. split.
+      * intros [<-|[<-|[]]]; split; auto; discriminate.
+      * intros [[<-|[<-|[<-|[]]]] H]; auto; exfalso; apply H; reflexivity.
+  - intros b Hb. vm_compute in Hb. destruct Hb as [<-|[<-|[]]]; exists (2%Z, 0%nat); (split; [vm_compute; auto | discriminate]).
+Qed.
 
 (** a single-tensor scaffold whose open axes meet the legs of the tensor out of order (open axes
     = legs 2,0,1): contract_tree permutes the leaf root AND transposes its stored tensor, the
